@@ -57,6 +57,7 @@ pub fn trivia_menu() -> Vec<(&'static str, &'static str)> {
         ("multi-line-comment", " (* a\n   b *) "),
         ("multi-line-comment-crlf", " (* a\r\n   b *)\r\n"),
         ("non-ascii-comment", " (* \u{e9}\u{20ac}\u{1F600} *) "),
+        ("multi-line-comment-non-ascii-last-line", " (* a\n \u{e9}\u{20ac} b *) "),
         ("two-comments", " (* a *) (* b *) "),
         ("blank-comment-lf", " (* c *)\n"),
         ("lf-comment", "\n(* c *) "),
